@@ -2,8 +2,8 @@
 written as the text 'None'): clean-tree observations of the C15 seeding agent of the ninth round; both repaired in /repo.  The
 script also shows two further observations that are NOT claimed as findings (an update cannot write an empty list; Pending events map
 None to ''): see DESIGN.md 8.3.  Original docstring follows.
-"""
-"""C15: observations on the UNCHANGED tree (no variant applied).
+
+C15: observations on the UNCHANGED tree (no variant applied).
 
 Run as  TM_LIB=<tree>/lib/python /venv/bin/python clean_obs.py
 Exits 1 when at least one of the observations below shows, 0 otherwise.
